@@ -5,7 +5,7 @@ Model: coq/C14.  Implementation: the real AxolotlControlLayer on the real Axolot
 small, against a server double that keeps the prekey directory and real Signal peers
 (python-axolotl SessionBuilder/SessionCipher) that consume one-time prekeys.
 """
-import os, json, hashlib, shutil, io, contextlib
+import os, json, hashlib, shutil, io, contextlib, glob, sqlite3
 from .. import modelrun
 
 ASSUME = [
@@ -90,9 +90,12 @@ class Rig(object):
         self.M = AxolotlManager
         self._saved_batch = AxolotlManager.COUNT_GEN_PREKEYS
         AxolotlManager.COUNT_GEN_PREKEYS = batch
-        self.profile_name = os.path.join(scratch, "c14-%s" % tag)
-        shutil.rmtree(self.profile_name, ignore_errors=True)
+        self.base_name = os.path.join(scratch, "c14-%s" % tag)
+        for d in glob.glob(self.base_name + "*"):
+            shutil.rmtree(d, ignore_errors=True)
+        self.profile_name = self.base_name
         os.makedirs(self.profile_name)
+        self.n_kills = 0
         self.phone = "4915550001"
         self.serial_of = {}          # public key bytes -> serial
         self.directory = {}          # id -> bundle dict (server side, popped when handed out)
@@ -118,8 +121,58 @@ class Rig(object):
 
     def close(self):
         self.M.COUNT_GEN_PREKEYS = self._saved_batch
+        self._drop(self.profile)
         self.layer = self.profile = None
-        shutil.rmtree(self.profile_name, ignore_errors=True)
+        for d in glob.glob(self.base_name + "*"):
+            shutil.rmtree(d, ignore_errors=True)
+
+    @staticmethod
+    def _drop(profile):
+        """the process is gone: its connection goes away WITHOUT a commit (sqlite3's close() does not commit;
+        whatever the library left in an open transaction is lost, exactly as after a kill)"""
+        mgr = getattr(profile, "_axolotl_manager", None)
+        try:
+            mgr._store.preKeyStore.dbConn.close()
+        except Exception:
+            pass
+
+    def kill_and_restart(self):
+        """restart = what the DATABASE FILE holds: the profile directory (db + a possibly hot -journal) is copied
+        as it is on disk at this moment and the new process - new layer, manager, store object - opens the copy;
+        the harness never commits on the library's connection"""
+        old_profile, old_dir = self.profile, self.profile_name
+        self.n_kills += 1
+        new_dir = "%s.k%d" % (self.base_name, self.n_kills)
+        shutil.copytree(old_dir, new_dir)
+        self.profile_name = new_dir
+        self.start()
+        self._drop(old_profile)
+        shutil.rmtree(old_dir, ignore_errors=True)
+
+    def file_rows(self):
+        """the store as the file holds it right now, read from a COPY of the profile directory (never through a
+        second connection to the library's own file): [(id, public key, sent flag)]"""
+        snap = self.base_name + ".snap"
+        shutil.rmtree(snap, ignore_errors=True)
+        shutil.copytree(self.profile_name, snap)
+        from yowsup.axolotl.store.sqlite.liteaxolotlstore import LiteAxolotlStore
+        from yowsup.axolotl.factory import AxolotlManagerFactory
+        st = LiteAxolotlStore(os.path.join(snap, AxolotlManagerFactory.DB))
+        try:
+            rows = self.rows_of(st)
+        finally:
+            try:
+                st.preKeyStore.dbConn.close()
+            except Exception:
+                pass
+            shutil.rmtree(snap, ignore_errors=True)
+        return rows
+
+    @staticmethod
+    def rows_of(st):
+        unsent = set(r.getId() for r in st.preKeyStore.loadUnsentPendingPreKeys())
+        return [(r.getId(), r.getKeyPair().getPublicKey().serialize()[1:], r.getId() not in unsent)
+                for r in st.loadPreKeys()]
 
     @property
     def manager(self):
@@ -133,12 +186,11 @@ class Rig(object):
     def observe(self):
         st = self.store
         rows = []
-        unsent = set(r.getId() for r in st.preKeyStore.loadUnsentPendingPreKeys())
-        for r in st.loadPreKeys():
-            pub = r.getKeyPair().getPublicKey().serialize()[1:]
+        self.live_rows = self.rows_of(st)
+        for rid, pub, sent in self.live_rows:
             if pub not in self.serial_of:
                 self.serial_of[pub] = len(self.serial_of)
-            rows.append([r.getId(), self.serial_of[pub], r.getId() not in unsent])
+            rows.append([rid, self.serial_of[pub], sent])
         signed = [r.getId() for r in st.loadSignedPreKeys()]
         from yowsup.layers.auth.layer_authentication import YowAuthenticationProtocolLayer as A
         un = [[r.getId(), self.serial_of.get(r.getKeyPair().getPublicKey().serialize()[1:], 99999)]
@@ -190,7 +242,7 @@ class Rig(object):
             elif kind == "disconnected":
                 self.event(YowNetworkLayer.EVENT_STATE_DISCONNECTED)
             elif kind == "restart":
-                self.start()
+                self.kill_and_restart()
             elif kind == "consume":
                 pass
         except Exception as e:
@@ -258,6 +310,8 @@ class Rig(object):
             return [["invalid-key"]]
         except yex.InvalidMessageException:
             return [["invalid-message"]]
+        except sqlite3.OperationalError as e:
+            return [["store-error", repr(e)[:80]]]
         if bytes(plain) != b"first message":
             return [["wrong-plaintext", repr(plain)[:60]]]
         return [["consumed", self.serial_of.get(b["value"], 99999)]]
@@ -317,6 +371,7 @@ class HistoryRun(object):
         self.stale_serial = set()     # the same as (id, serial)
         self.nontrivial = set()
         self.ledger = []              # one entry per upload stanza: where, which ids, how it was answered
+        self.tie_breaks = []          # store API calls after which the file did not hold what the connection sees
         self.soft = set()             # indexes of problems that do not end the history
 
     def run(self):
@@ -332,6 +387,8 @@ class HistoryRun(object):
         offered_live = {}        # (id,key) offered and not consumed
         confirmed_keys = set()   # (id, key) contained in a confirmed upload
         issued_hi = 0
+        consumed_ids = set()
+        consumed_keys = set()         # (id, public key) used up by a first message
         connected = authed = False
         conn_uploads = []        # upload indexes sent on this connection
         pending = []
@@ -347,6 +404,22 @@ class HistoryRun(object):
                 max_before = max([r[0] for r in before["rows"]] or [0])
                 evs = rig.do(op, before)
                 after = rig.observe()
+                # durable state = live state after every call (the model commits per store call): the file, read
+                # from a copy, must hold exactly the rows the library's own connection sees
+                try:
+                    on_file = rig.file_rows()
+                except sqlite3.Error as e:
+                    on_file = None
+                    self.tie_breaks.append({"step": len(self.ops), "op": list(op), "what": "store file unreadable: %r" % (e,)})
+                if on_file is not None and sorted(on_file) != sorted(rig.live_rows):
+                    only_live = sorted(r[0] for r in rig.live_rows if r not in on_file)
+                    only_file = sorted(r[0] for r in on_file if r not in rig.live_rows)
+                    self.tie_breaks.append({
+                        "step": len(self.ops), "op": list(op), "only_on_connection": only_live,
+                        "only_in_file": only_file,
+                        "what": "after %s returned the library's connection holds prekey rows %s that the database "
+                                "file does not (a write transaction was left open): a kill now loses them"
+                                % (op[0], only_live if only_live else only_file)})
                 self.ops.append(op)
                 self.op_wf.append(bool(sop.get("wf", True)))
                 cevs = canon_impl_events(rig, evs)
@@ -355,7 +428,18 @@ class HistoryRun(object):
                 new_ids = [r[0] for r in after["rows"] if r[1] not in [x[1] for x in before["rows"]]]
                 if new_ids:
                     if max_before < issued_hi:
-                        self.reuse_seen = True      # the refill started below an id issued earlier
+                        # the refill started below an id issued earlier.  The listed finding explains that only
+                        # when every id above the refill's start had been consumed by a first message
+                        gone = [i for i in range(max_before + 1, issued_hi + 1) if i not in consumed_ids]
+                        if not gone:
+                            self.reuse_seen = True
+                        elif any(i in offered for i in gone):
+                            gone = [i for i in gone if i in offered]
+                            self.problems.append(("oracle:issued_ids_lost", {
+                                "step": len(self.ops) - 1, "ids": gone[:20], "refill_starts_at": max_before + 1,
+                                "what": "prekey ids %s were offered to the server and never consumed, but they are no longer "
+                                        "in the store and the refill re-issues them with new key pairs" % gone[:20]},
+                                None))
                     issued_hi = max(issued_hi, max(new_ids))
                 if op[0] == "connect":
                     connected, authed, conn_uploads = True, False, []
@@ -380,7 +464,10 @@ class HistoryRun(object):
                         for kid, val in u["keys"]:
                             i = int.from_bytes(kid, "big")
                             offered.setdefault(i, set()).add(val)
-                            offered_live[(i, val)] = True
+                            if (i, val) not in consumed_keys:
+                                # (a consumed key offered again is reported where it happens - the open stale-list
+                                # finding, or an unexplained violation - it does not become "available" again)
+                                offered_live[(i, val)] = True
                             if len(offered[i]) > 1:
                                 self.problems.append(("oracle:id_names_one_key", {
                                     "step": len(self.ops) - 1, "id": i,
@@ -393,8 +480,11 @@ class HistoryRun(object):
                             self.stale_consumed.add((kid, b["value"]))
                             self.stale_serial.add((kid, e[1]))
                         offered_live.pop((kid, b["value"]), None)
+                        consumed_ids.add(kid)
+                        consumed_keys.add((kid, b["value"]))
                         self.nontrivial.add("consume")
-                    if e[0] in ("invalid-message", "wrong-plaintext", "no-bundle", "unexpected-stanza", "broadcast"):
+                    if e[0] in ("invalid-message", "wrong-plaintext", "no-bundle", "unexpected-stanza", "broadcast",
+                                "store-error"):
                         self.problems.append(("oracle:consume", {"step": len(self.ops) - 1, "event": e[:2]},
                                               KNOWN_KEY if self.reuse_seen else None))
                 if op[0] in ("result", "error") and op[1] in pending:
@@ -416,11 +506,17 @@ class HistoryRun(object):
                             "what": "prekey %d is flagged sent but no confirmed upload contained it" % rid},
                             KNOWN_KEY if self.reuse_seen else None))
                 stored = set((r[0], inv_serial[r[1]]) for r in after["rows"])
+                lost_now = sorted(i for (i, val) in offered_live if (i, val) not in stored)
                 for (i, val) in offered_live:
                     if (i, val) not in stored:
                         self.problems.append(("oracle:offered_key_available", {
-                            "step": len(self.ops) - 1, "id": i,
-                            "what": "an offered, unconsumed key is no longer in the store"},
+                            "step": len(self.ops) - 1, "id": i, "ids": lost_now[:20],
+                            "offered_in": [l["stanza"] for l in self.ledger if i in l["ids"]],
+                            "what": ("prekeys %s were offered to the server (stanza %s) and never consumed, but after "
+                                     "the process was killed and restarted the store file does not hold them: a first "
+                                     "message using one of them cannot be decrypted"
+                                     % (lost_now[:20], [l["stanza"] for l in self.ledger if i in l["ids"]]))
+                            if op[0] == "restart" else "an offered, unconsumed key is no longer in the store"},
                             KNOWN_KEY2 if (i, val) in self.stale_consumed else
                             KNOWN_KEY if self.reuse_seen else None))
                 if op[0] == "authed" and op[1] and connected and hist_wf:
@@ -442,6 +538,20 @@ class HistoryRun(object):
                             self.soft.add(len(self.problems) - 1)
                     if want:
                         self.nontrivial.add("reoffer")
+                    # the same from the wire side, across restarts: whatever was offered in an upload that was never
+                    # confirmed (and not consumed since) is offered again by this login
+                    wire = set((int.from_bytes(kid, "big"), val) for e in evs if e[0] == "upload"
+                               for kid, val in e[2]["keys"])
+                    owed = sorted(i for (i, val) in offered_live
+                                  if (i, val) not in confirmed_before and (i, val) not in wire)
+                    if owed:
+                        self.problems.append(("oracle:unconfirmed_reoffered", {
+                            "step": len(self.ops) - 1, "ids": owed[:20],
+                            "offered_in": sorted(set(l["stanza"] for l in self.ledger
+                                                     if set(l["ids"]) & set(owed) and l["answer"] != "result")),
+                            "what": "prekeys %s were offered in an upload that was never confirmed, but this passive "
+                                    "login does not offer them again" % owed[:20]},
+                            KNOWN_KEY if self.reuse_seen else None))
                 if op[0] == "authed" and hist_wf:
                     again = sorted(int.from_bytes(kid, "big") for e in evs if e[0] == "upload"
                                    for kid, val in e[2]["keys"] if (int.from_bytes(kid, "big"), val) in confirmed_before)
@@ -604,6 +714,16 @@ class HistoryRun(object):
                                   KNOWN_KEY if self.reuse_seen and all("prekey" in b and "signed" not in b for b in bad) else None))
 
 
+def mismatch(model, batch, hr):
+    """where the implementation leaves the model: an event / state difference, or - the model commits per store
+    call, so after every step the file holds what the connection sees - a store call that left its writes in an
+    open transaction"""
+    d = compare(model, batch, hr)
+    if d is None and hr.tie_breaks:
+        d = {"durable_state": hr.tie_breaks[0]}
+    return d
+
+
 def compare(model, batch, hr):
     res = model.call("run_hist", [batch, [model_op(o) for o in hr.ops]])
     if isinstance(res, tuple):
@@ -715,6 +835,16 @@ def systematic():
         (3, [C, NP, ask, D, C, A, res, D, C, A]),
         # non-passive login, two confirmed key-count requests, then two passive logins
         (4, [C, NP, ask, res, ask, res, D, C, A, res, D, C, A, res]),
+        # the process is killed (restart = what the database file holds):
+        #  ... while the upload of a later generation is on the wire, before its result
+        (4, [C, A, res, D, C, A, R, C, A, res, D, C, A]),
+        #  ... while the upload answering a key-count request is on the wire
+        (5, [C, A, res, D, C, A, ask, R, C, A, res, D, C, A]),
+        #  ... right after keys were generated, before anything else commits
+        (3, [C, R, C, A, res, D, C, A]),
+        (6, [C, A, res, D, C, A, res, D, C, R, C, A, res]),
+        #  ... with a generation batch above 100 (104: a chunked writer would have committed 100 of them)
+        (104, [C, A, res, D, C, A, ask, R, C, A, res, D, C, A]),
     ]
 
 
@@ -728,6 +858,12 @@ def gen_cases(ctx):
                 cases.append(("corpus", d["batch"], d["script"]))
     for b, s in systematic():
         cases.append(("systematic", b, s))
+    if ctx.tier != "quick":
+        C, A, D, R = {"op": "connect"}, {"op": "authed"}, {"op": "disconnected"}, {"op": "restart"}
+        res, ask = {"op": "result"}, {"op": "askkeys"}
+        # the library's real generation batch, and one between
+        cases.append(("systematic", 812, [C, A, res, D, C, A, ask, R, C, A, res, D, C, A]))
+        cases.append(("systematic", 250, [C, A, R, C, A, res, D, C, A, ask, R, C, A, res]))
     n = 220 if ctx.tier == "quick" else 5000
     for _ in range(n):
         cases.append(("random", ctx.rng.choice([3, 4, 5, 6]), gen_script(ctx.rng)))
@@ -859,7 +995,11 @@ def directed_search(ctx, batch, script):
              [D, C, A, res, D, C, A, res],
              [ask, res, res, use, D, C, A, res, D, C, A],
              [D, R, C, A, res, D, C, A, res],
-             [res, ask, D, C, A, res, res, D, C, A]]
+             [res, ask, D, C, A, res, res, D, C, A],
+             # the process is killed while an upload is on the wire, unanswered
+             [res, D, C, A, R, C, A, res, D, C, A],
+             [R, C, A, res, D, C, A],
+             [res, ask, R, C, A, res, D, C, A]]
     for v in variants:
         connected, authed = end_state(v)
         for login in (A, NP):
@@ -916,7 +1056,7 @@ def run(ctx):
             ctx.violation(name, case, key=key)
             break
         if model is not None:
-            diff = compare(model, batch, hr)
+            diff = mismatch(model, batch, hr)
             if diff is not None:
                 corr_bad += 1
             # a broken correspondence is reported (twice at most) but never ends the search: the
@@ -940,10 +1080,10 @@ def run(ctx):
             if _real and not realistic(cand):
                 return False
             r = HistoryRun(ctx, batch, cand, "k").run()
-            return compare(model, batch, r) is not None
+            return mismatch(model, batch, r) is not None
         small = shrink(ctx, batch, rs, pred2)
         r2 = HistoryRun(ctx, batch, small, "k").run()
-        d2 = compare(model, batch, r2) or diff
+        d2 = mismatch(model, batch, r2) or diff
         hit = None if any(k is None for _, _, k in r2.problems) else directed_search(ctx, batch, small)
         if hit is not None:
             script, name, detail, hr3 = hit
@@ -1009,7 +1149,9 @@ def replay(ctx, data):
     print("expected: ids name one key; sent flag only after a confirmed upload that carried the key, and always "
           "after one; no upload offers a key of an already confirmed upload; passive login offers exactly the "
           "stored unconfirmed keys; offered keys stay available until consumed; consumed keys cannot be used again")
-    if hr.problems:
+    for t in hr.tie_breaks[:3]:
+        print("durable state:", json.dumps(t, default=str)[:400])
+    if any(k is None or ctx.known_match(k) is None for _, _, k in hr.problems):
         print("VIOLATION property=C14 replay=(replayed)")
         return 1
     return 0
